@@ -108,7 +108,11 @@ def generate(rng, tier, index):
             # i.e. after the tree has been loaded from (optionally after a warm-up load of every
             # image) - and whether copy 1 is a copy of the tree or a copy of a copy
             "pickle": rng.choice(["at-open", "per-set", "per-set", "per-set-warm"]),
-            "copy_of_copy": rng.random() < 0.3}
+            "copy_of_copy": rng.random() < 0.3,
+            # cold starts: a restarted library, a freshly opened tree and the concurrent loads
+            # as the very first loads of the process, pre-empted at line level; judged against
+            # the truth model (nothing sequential has run that could serve as a reference)
+            "cold": rng.randrange(2**31) if rng.random() < 0.3 else None}
 
 
 def _generate_systematic(rng, tier):
@@ -331,12 +335,93 @@ def execute(plan):
                     violations.append(bad)
                     if schedule_out is None:
                         schedule_out = {"only": [si, j], "schedule": list(sched.trace)}
+        if plan.get("cold") is not None and plan.get("schedule") is None and not violations:
+            n_cold = _cold_starts(plan, w, prod, violations, keys, bump)
+            evaluations += n_cold
         extra = {"evaluations": max(evaluations, 1)}
         if schedule_out and plan.get("schedule") is None:
             extra["plan_update"] = schedule_out
         return common.outcome(SIM, violations, keys, stats, extra)
     finally:
         w.destroy()
+
+
+def _expected(prod, name, sel):
+    """flat indices (into the image) of the samples the selection picks, in result order"""
+    import xarray as xr
+
+    twin = xr.DataArray(np.arange(prod.truth[name].shape[0] * prod.truth[name].shape[1]).reshape(
+        prod.truth[name].shape[:2]), dims=("rows", "columns"))
+    return select.apply(twin, sel).values      # flat indices of the selected samples
+
+
+def _cold_starts(plan, w, prod, violations, keys, bump):
+    """restart, open, and let the concurrent loads be the first loads of the process"""
+    rng = random.Random(plan["cold"])
+    n_done = 0
+    for j in range(plan.get("cold_n", 5)):
+        world.restart()
+        try:
+            tree = w.open(use_cache=False, records_per_chunk=plan["rpc"])
+            trees = {0: tree, 1: pickle.loads(pickle.dumps(tree))}
+        except Exception as e:  # noqa: BLE001
+            violations.append(Violation(ID, "load-raised", "cold-open", {"error": exc_text(e)}))
+            return n_done
+        # two or three loaders on DIFFERENT images where possible (same layout is the rule for the
+        # polarisations of one product), whole lines
+        n_img = len(prod.images)
+        n_act = 2 if rng.random() < 0.7 else 3
+        jobs = []
+        for a in range(n_act):
+            img_k = a % n_img
+            name = prod.images[img_k]
+            n = prod.truth[name].shape[0]
+            lo = int(rng.random() * n)
+            sel = {"kind": "isel", "rows": {"slice": [lo, min(lo + 1 + int(rng.random() * 3), n),
+                                                      None]}}
+            jobs.append((img_k, a % 2 if rng.random() < 0.3 else 0, sel))
+        pts = {1 + int(rng.random() * 140) for _ in range(6)}
+        sched = Sched(rng=random.Random(plan["cold"] + j), switch_p=0.3, max_steps=200000,
+                      line_points=pts, trace_prefix=boot.REPO + "/ceos_alos2/")
+        for ai, (img_k, copy_k, sel) in enumerate(jobs):
+            def work(img_k=img_k, copy_k=copy_k, sel=sel):
+                da = trees[copy_k]["imagery"][prod.groups[prod.images[img_k]]]["data"]
+                return select.apply(da, sel).load().values
+            sched.spawn("L%d" % ai, work)
+        sched.run(wall_timeout=800)
+        n_done += 1
+        bump("cold-starts")
+        order = hashlib.sha256(",".join(sched.trace).encode()).hexdigest()[:10]
+        keys.append(f"cold|{order}")
+        where = {"cold_start": j, "actors": len(jobs)}
+        bad = None
+        if sched.deadlock:
+            bad = Violation(ID, "deadlock", "cold-start", dict(where, blocked=sorted(sched.blocked)))
+        elif sched.budget:
+            bad = Violation(ID, "no-progress", "cold-start", dict(where, steps=sched.steps))
+        else:
+            for ai, (img_k, copy_k, sel) in enumerate(jobs):
+                nm = "L%d" % ai
+                if nm in sched.err:
+                    bad = Violation(ID, "load-raised", "cold-start", dict(
+                        where, actor=nm, error=exc_text(sched.err[nm])))
+                    break
+                name = prod.images[img_k]
+                got = sched.res[nm]
+                flat = _expected(prod, name, sel)
+                truth = prod.truth[name]
+                want = truth.reshape((-1,) + truth.shape[2:])[flat.reshape(-1)].reshape(
+                    flat.shape + truth.shape[2:])
+                gb = bits_of(got, prod.level)
+                if gb is None or gb.shape != want.shape or not np.array_equal(gb, want):
+                    bad = Violation(ID, "result-differs-from-sequential", "cold-start", dict(
+                        where, actor=nm, selection=sel, got_shape=list(np.shape(got)),
+                        want_shape=list(flat.shape)))
+                    break
+        if bad is not None:
+            violations.append(bad)
+            return n_done
+    return n_done
 
 
 def _overlap(events):
